@@ -501,3 +501,328 @@ pub proof fn lemma_removed_accounted(f: PatchedFile, out: Seq<LineChange>, o: Se
         }
     }
 }
+
+// ---- a marker line is no line: the specification of the hunk WITHOUT its marker line -------------
+// NOT used by the proof of `line_changes`. These lemmas check the MEANING of the specification layer
+// (prelude/diff_lines_spec.rs, "marker lines"): for a well-shaped hunk `ls` (`shape_wf`, implied by
+// `hunk_wf`) with a marker line at position m, every specification function that looks at the lines
+// says about `ls` what it says about `ls.remove(m)` - the same hunk with the marker line deleted -
+// position by position. `dn(m, k)` is position k of `ls` seen in `ls.remove(m)`; the two cursor
+// positions m and m + 1 (before / after the marker) are the same position there.
+
+/// the part of `line_wf` that only looks at the kinds of the lines
+pub open spec fn shape_at(ls: Seq<Line>, k: int) -> bool {
+    &&& kind(ls[k]) == Kind::Other ==> marker_wf(ls, k)
+    &&& k > 0 && kind(ls[k]) == Kind::Rem ==> kind(ls[k - 1]) != Kind::Add
+}
+
+pub open spec fn shape_wf(ls: Seq<Line>) -> bool {
+    forall|k: int| 0 <= k < ls.len() ==> #[trigger] shape_at(ls, k)
+}
+
+pub open spec fn dn(m: int, k: int) -> int {
+    if k > m { k - 1 } else { k }
+}
+
+pub proof fn lemma_hunk_wf_shape(h: Hunk)
+    requires hunk_wf(h),
+    ensures shape_wf(h.spec_lines()),
+{
+    let ls = h.spec_lines();
+    assert forall|k: int| 0 <= k < ls.len() implies #[trigger] shape_at(ls, k) by {
+        assert(line_wf(h, k));
+    }
+}
+
+/// `cs` / `ct` (hence `hunk_gap`, the header-length clauses of `hunk_wf`, `kf1_carve_out` and
+/// `post_deletion_new_numbering`): the cursors of the hunk are the cursors of the hunk without the marker
+pub proof fn lemma_marker_is_no_line_cursors(h: Hunk, h2: Hunk, m: int, k: int)
+    requires
+        0 <= m < h.spec_lines().len(),
+        kind(h.spec_lines()[m]) == Kind::Other,
+        h2.spec_lines() == h.spec_lines().remove(m),
+        h2.source_start == h.source_start && h2.source_length == h.source_length,
+        h2.target_start == h.target_start && h2.target_length == h.target_length,
+        0 <= k <= h.spec_lines().len(),
+    ensures
+        cs(h2, dn(m, k)) == cs(h, k),
+        ct(h2, dn(m, k)) == ct(h, k),
+    decreases k
+{
+    let ls = h.spec_lines();
+    ls.remove_ensures(m);
+    if k > 0 {
+        lemma_marker_is_no_line_cursors(h, h2, m, k - 1);
+        if k - 1 < m {
+            assert(h2.spec_lines()[k - 1] == ls[k - 1]);
+        } else if k - 1 > m {
+            assert(h2.spec_lines()[k - 2] == ls[k - 1]);
+        }
+    }
+}
+
+pub proof fn lemma_gstart(ls: Seq<Line>, k: int)
+    requires 0 <= k <= ls.len(),
+    ensures
+        0 <= gstart(ls, k) <= k,
+        gstart(ls, k) == 0 || kind(ls[gstart(ls, k) - 1]) == Kind::Ctx,
+        forall|j: int| gstart(ls, k) <= j < k ==> kind(#[trigger] ls[j]) != Kind::Ctx,
+    decreases k
+{
+    if k > 0 && kind(ls[k - 1]) != Kind::Ctx { lemma_gstart(ls, k - 1); }
+}
+
+pub proof fn lemma_fadd(ls: Seq<Line>, k: int)
+    requires 0 <= k <= ls.len(),
+    ensures
+        0 <= fadd(ls, k) <= k,
+        fadd(ls, k) == 0 || kind(ls[fadd(ls, k) - 1]) != Kind::Add,
+        forall|j: int| fadd(ls, k) <= j < k ==> kind(#[trigger] ls[j]) == Kind::Add,
+    decreases k
+{
+    if k > 0 && kind(ls[k - 1]) == Kind::Add { lemma_fadd(ls, k - 1); }
+}
+
+/// `gstart` / `fadd`: the group of changed lines and its run of added lines are those of the hunk
+/// without the marker
+pub proof fn lemma_marker_is_no_line_groups(ls: Seq<Line>, m: int, k: int)
+    requires
+        shape_wf(ls),
+        0 <= m < ls.len(),
+        kind(ls[m]) == Kind::Other,
+        0 <= k <= ls.len(),
+    ensures
+        gstart(ls.remove(m), dn(m, k)) == dn(m, gstart(ls, k)),
+        fadd(ls.remove(m), dn(m, k)) == dn(m, fadd(ls, k)),
+    decreases k
+{
+    let ls2 = ls.remove(m);
+    ls.remove_ensures(m);
+    assert(shape_at(ls, m));
+    if k > 0 {
+        lemma_marker_is_no_line_groups(ls, m, k - 1);
+        lemma_gstart(ls, k - 1);
+        lemma_fadd(ls, k - 1);
+        if k <= m {
+            assert(ls2[k - 1] == ls[k - 1]);
+        } else if k == m + 1 {
+            assert(ls2[m - 1] == ls[m - 1]);
+        } else {
+            assert(ls2[k - 2] == ls[k - 1]);
+        }
+    }
+}
+
+/// inside a group of changed lines, everything after an added line is an added line
+pub proof fn lemma_adds_to_group_end(ls: Seq<Line>, a: int, b: int)
+    requires
+        shape_wf(ls),
+        0 <= a < b <= ls.len(),
+        kind(ls[a]) == Kind::Add,
+        forall|j: int| a <= j < b ==> kind(#[trigger] ls[j]) != Kind::Ctx,
+    ensures
+        forall|j: int| a <= j < b ==> kind(#[trigger] ls[j]) == Kind::Add,
+    decreases b - a
+{
+    if b > a + 1 {
+        lemma_adds_to_group_end(ls, a, b - 1);
+        assert(kind(ls[b - 2]) == Kind::Add);
+        assert(shape_at(ls, b - 1));
+    }
+}
+
+/// `paired`: the added line at position j is paired in the hunk iff it is paired in the hunk without
+/// the marker
+pub proof fn lemma_marker_is_no_line_paired(ls: Seq<Line>, m: int, j: int)
+    requires
+        shape_wf(ls),
+        0 <= m < ls.len(),
+        kind(ls[m]) == Kind::Other,
+        0 <= j < ls.len(),
+        kind(ls[j]) == Kind::Add,
+    ensures
+        paired(ls.remove(m), dn(m, j)) == paired(ls, j),
+{
+    reveal(mk);
+    let ls2 = ls.remove(m);
+    ls.remove_ensures(m);
+    assert(shape_at(ls, m));
+    let f = fadd(ls, j);
+    let g = gstart(ls, f);
+    lemma_fadd(ls, j);
+    lemma_gstart(ls, f);
+    lemma_marker_is_no_line_groups(ls, m, j);
+    lemma_marker_is_no_line_groups(ls, m, f);
+    if j < m {
+        if f > 0 { assert(ls2[f - 1] == ls[f - 1]); }
+    } else {
+        // the marker is not an added line: the run of added lines before j starts behind it
+        if f <= m { assert(kind(ls[m]) == Kind::Add); }
+        assert(f >= m + 1);
+        if f == m + 1 {
+            assert(ls2[m - 1] == ls[m - 1]);
+            assert(g <= m);
+        } else {
+            assert(ls2[f - 2] == ls[f - 1]);
+            if g <= m {
+                // the group would reach from the marker's added line to a line that is not an added line
+                lemma_adds_to_group_end(ls, m + 1, f);
+                assert(kind(ls[f - 1]) == Kind::Add);
+            }
+            assert(g != m + 1);
+        }
+    }
+}
+
+/// `pure_del_run` (hence `kf1_carve_out`, `post_every_pure_deletion`, `entry_ok`): the pure-deletion
+/// runs of the hunk are those of the hunk without the marker
+pub proof fn lemma_marker_is_no_line_pure_del_run(ls: Seq<Line>, m: int, ks: int, e: int)
+    requires
+        shape_wf(ls),
+        0 <= m < ls.len(),
+        kind(ls[m]) == Kind::Other,
+        0 <= ks < e <= ls.len(),
+    ensures
+        pure_del_run(ls.remove(m), dn(m, ks), dn(m, e)) == pure_del_run(ls, ks, e),
+{
+    let ls2 = ls.remove(m);
+    ls.remove_ensures(m);
+    assert(shape_at(ls, m));
+    assert(ls2[m - 1] == ls[m - 1]);
+    assert(ls2[m] == ls[m + 1]);
+    if ks <= m && m < e {
+        // a run across the marker is no run of removed lines, with or without the marker
+        assert(kind(ls[m]) != Kind::Rem);
+        if e > m + 1 {
+            assert(kind(ls2[m]) != Kind::Rem);
+        } else if ks < m {
+            assert(next_is(ls2, m, Kind::Add));
+        }
+    } else if e <= m {
+        if ks > 0 { assert(ls2[ks - 1] == ls[ks - 1]); }
+        assert forall|j: int| ks <= j < e implies ls2[j] == ls[j] by {}
+        if e < m {
+            assert(ls2[e] == ls[e]);
+            if kind(ls[e]) == Kind::Other {
+                assert(shape_at(ls, e));
+                assert(e + 1 < m);
+                assert(ls2[e + 1] == ls[e + 1]);
+            }
+        }
+        if pure_del_run(ls, ks, e) {
+            assert forall|j: int| ks <= j < e implies kind(#[trigger] ls2[j]) == Kind::Rem by { assert(ls2[j] == ls[j]); }
+        }
+        if pure_del_run(ls2, ks, e) {
+            assert forall|j: int| ks <= j < e implies kind(#[trigger] ls[j]) == Kind::Rem by { assert(ls2[j] == ls[j]); }
+        }
+    } else {
+        // ks > m: the run lies behind the marker
+        if ks == m + 1 {
+            assert(kind(ls[ks]) == Kind::Add);
+            assert(kind(ls2[m]) == Kind::Add);
+        } else {
+            assert(ls2[ks - 2] == ls[ks - 1]);
+            if e < ls.len() {
+                assert(ls2[e - 1] == ls[e]);
+                if e + 1 < ls.len() { assert(ls2[e] == ls[e + 1]); }
+            }
+            if pure_del_run(ls, ks, e) {
+                assert forall|j: int| ks - 1 <= j < e - 1 implies kind(#[trigger] ls2[j]) == Kind::Rem by { assert(ls2[j] == ls[j + 1]); }
+            }
+            if pure_del_run(ls2, ks - 1, e - 1) {
+                assert forall|j: int| ks <= j < e implies kind(#[trigger] ls[j]) == Kind::Rem by { assert(ls2[j - 1] == ls[j]); }
+            }
+        }
+    }
+}
+
+/// `replace_group` (hence `kf2_carve_out`, `removed_accounted`): the replace groups of the hunk are
+/// those of the hunk without the marker, with the same numbers of removed and of added lines.
+/// (fa != m: the cursor positions m and m + 1 are one position without the marker, and only m + 1 -
+/// behind the marker - can be the start of a run of added lines.)
+pub proof fn lemma_marker_is_no_line_replace_group(ls: Seq<Line>, m: int, gs: int, fa: int, ge: int)
+    requires
+        shape_wf(ls),
+        0 <= m < ls.len(),
+        kind(ls[m]) == Kind::Other,
+        0 <= gs < fa < ge <= ls.len(),
+        fa != m,
+    ensures
+        replace_group(ls.remove(m), dn(m, gs), dn(m, fa), dn(m, ge)) == replace_group(ls, gs, fa, ge),
+        replace_group(ls, gs, fa, ge) ==> (dn(m, fa) - mk(ls.remove(m), dn(m, fa))) - dn(m, gs) == (fa - mk(ls, fa)) - gs
+            && dn(m, ge) - dn(m, fa) == ge - fa,
+{
+    reveal(mk);
+    let ls2 = ls.remove(m);
+    ls.remove_ensures(m);
+    assert(shape_at(ls, m));
+    assert(ls2[m - 1] == ls[m - 1]);
+    assert(ls2[m] == ls[m + 1]);
+    let (gs2, fa2, ge2) = (dn(m, gs), dn(m, fa), dn(m, ge));
+    if fa < m {
+        // the group's removed lines and first added line lie before the marker
+        assert(ls2[fa - 1] == ls[fa - 1]);
+        assert(ls2[fa] == ls[fa]);
+        if gs > 0 { assert(ls2[gs - 1] == ls[gs - 1]); }
+        if ge >= m {
+            // ... an added line directly before the marker? it follows a removed line
+            assert(kind(ls[m - 1]) == Kind::Rem);
+            assert(kind(ls2[m - 1]) == Kind::Rem);
+        } else {
+            assert(ls2[ge] == ls[ge] || ge + 1 == m);
+            if ge + 1 == m { assert(ls2[ge] == ls[ge]); }
+        }
+        if replace_group(ls, gs, fa, ge) {
+            assert(ge < m);
+            assert forall|j: int| gs2 <= j < fa2 - mk(ls2, fa2) implies kind(#[trigger] ls2[j]) == Kind::Rem by { assert(ls2[j] == ls[j]); }
+            assert forall|j: int| fa2 <= j < ge2 implies kind(#[trigger] ls2[j]) == Kind::Add by { assert(ls2[j] == ls[j]); }
+        }
+        if replace_group(ls2, gs2, fa2, ge2) {
+            assert(ge < m);
+            assert forall|j: int| gs <= j < fa - mk(ls, fa) implies kind(#[trigger] ls[j]) == Kind::Rem by { assert(ls2[j] == ls[j]); }
+            assert forall|j: int| fa <= j < ge implies kind(#[trigger] ls[j]) == Kind::Add by { assert(ls2[j] == ls[j]); }
+        }
+    } else if fa == m + 1 {
+        // the marker's own group: removed lines [gs, m), marker, added lines [m + 1, ge)
+        assert(mk(ls, fa) == 1 && mk(ls2, fa2) == 0);
+        if gs > 0 && gs < m { assert(ls2[gs - 1] == ls[gs - 1]); }
+        if ge < ls.len() { assert(ls2[ge - 1] == ls[ge]); }
+        if replace_group(ls, gs, fa, ge) {
+            assert forall|j: int| gs2 <= j < fa2 - mk(ls2, fa2) implies kind(#[trigger] ls2[j]) == Kind::Rem by { assert(ls2[j] == ls[j]); }
+            assert forall|j: int| fa2 <= j < ge2 implies kind(#[trigger] ls2[j]) == Kind::Add by { assert(ls2[j] == ls[j + 1]); }
+        }
+        if replace_group(ls2, gs2, fa2, ge2) {
+            assert forall|j: int| gs <= j < fa - mk(ls, fa) implies kind(#[trigger] ls[j]) == Kind::Rem by { assert(ls2[j] == ls[j]); }
+            assert forall|j: int| fa <= j < ge implies kind(#[trigger] ls[j]) == Kind::Add by { assert(ls2[j - 1] == ls[j]); }
+        }
+    } else {
+        // fa > m + 1
+        assert(ls2[fa - 2] == ls[fa - 1]);
+        assert(mk(ls, fa) == mk(ls2, fa2));
+        if ge < ls.len() { assert(ls2[ge - 1] == ls[ge]); }
+        if gs <= m + 1 {
+            // removed lines from the marker (or before, or the added line behind it) on: no replace group either way
+            if gs <= m {
+                assert(kind(ls[m]) != Kind::Rem);
+                assert(kind(ls2[m]) != Kind::Rem);
+                assert(m < fa - mk(ls, fa));
+                assert(m < fa2 - mk(ls2, fa2));
+            } else {
+                assert(kind(ls[gs]) == Kind::Add);
+                assert(kind(ls2[gs2]) == Kind::Add);
+                assert(gs < fa - mk(ls, fa));
+                assert(gs2 < fa2 - mk(ls2, fa2));
+            }
+        } else {
+            assert(ls2[gs - 2] == ls[gs - 1]);
+            if replace_group(ls, gs, fa, ge) {
+                assert forall|j: int| gs2 <= j < fa2 - mk(ls2, fa2) implies kind(#[trigger] ls2[j]) == Kind::Rem by { assert(ls2[j] == ls[j + 1]); }
+                assert forall|j: int| fa2 <= j < ge2 implies kind(#[trigger] ls2[j]) == Kind::Add by { assert(ls2[j] == ls[j + 1]); }
+            }
+            if replace_group(ls2, gs2, fa2, ge2) {
+                assert forall|j: int| gs <= j < fa - mk(ls, fa) implies kind(#[trigger] ls[j]) == Kind::Rem by { assert(ls2[j - 1] == ls[j]); }
+                assert forall|j: int| fa <= j < ge implies kind(#[trigger] ls[j]) == Kind::Add by { assert(ls2[j - 1] == ls[j]); }
+            }
+        }
+    }
+}
